@@ -8,7 +8,7 @@ GATES = {
     'quick': {'evaluations': 30000, 'getter_checks': 25000, 'setter_checks': 3000, 'chained_setter_checks': 3000, 'setter_nonempty_readback': 1500,
               'model_next_to_zero_width': 2000, 'classes_checked': 25, 'setter_crlf': 150,
               'runs_split_by_zero_width_token': 100, 'post_write_neighbour_sweeps': 150,
-              'line_end_only_chain_steps': 500, 'post_write_sweeps_after_filling_an_empty_gap': 50},
+              'line_end_only_chain_steps': 500, 'entry_gap_checks': 1000, 'entry_gaps_with_blank_only_lines': 80, 'post_write_sweeps_after_filling_an_empty_gap': 50},
     'thorough': {'evaluations': 800000, 'classes_checked': 30},
 }
 SPACINGS = ['', ' ', '\n', '\r\n', '  \t', '\n\n', ' \n\t \n', '\t', '    ', '\r\n\r\n', ' \r\n ', '\n ']
@@ -96,6 +96,28 @@ def run_case(col, r, idx):
                     col.violation(f'getter:{side}', f'{cname} at {path}: spacing_{side} == {got!r} but the adjacent run is {exp!r}',
                                   {'text': text, 'path': path, 'acl': acl, 'context': full[max(0, a - 12):b + 12][:200]})
                     return
+        # between two neighbouring entries of the file the text decides, not the lexer: where everything between the end of one entry
+        # and the start of the next is blanks and line ends, that text *is* the spacing both of them see (a blank-only line is
+        # spacing whatever its line end looks like)
+        ents = list(f.raw_directives_with_comments)
+        for e1, e2 in zip(ents, ents[1:]):
+            try:
+                b0 = pos[id(e1.last_token)] + len(e1.last_token.raw_text)
+                a0 = pos[id(e2.first_token)]
+            except KeyError:
+                continue
+            gap = full[b0:a0]
+            if gap.strip(' \t\r\n') or isinstance(e1, models.IgnoredLine):
+                continue        # (an ignored line's token ends with the CR of a CRLF line end: the lexer's business, see DESIGN)
+            col.ev()
+            col.count('entry_gap_checks')
+            if ' ' in gap or '\t' in gap:
+                col.count('entry_gaps_with_blank_only_lines')
+            got1, got2 = e1.spacing_after, e2.spacing_before
+            if got1 != gap or got2 != gap:
+                col.violation('entry-gap', f'between entry {type(e1).__name__} and entry {type(e2).__name__} the text is {gap!r}; '
+                              f'spacing_after reads {got1!r}, spacing_before reads {got2!r}', {'text': text, 'acl': acl})
+                return
         if not ms:
             return
         # half of the documents take all their assignments one after the other on the same tree (runs collapse, blocks of the store
